@@ -111,6 +111,10 @@ CHECKS = {
 
 NOT_YET = {}
 
+INP_IDS = {"C04", "C05", "C06", "C07", "C08", "C13", "C14", "C15", "C16"}
+INP = (" Input binding: TLC also requires (clause input_faithful) that the loaded rows the analysis worked on still say what the input file said "
+       "(name, category, stream of the entry at each id; every complete entry present when nothing is trimmed; the link column equal to the "
+       "file's link relation), so a wrong loader is reported here as a violation rather than as an out-of-domain input.")
 ISO_IDS = {"C04", "C05", "C06", "C07", "C08", "C09", "C10", "C11", "C13", "C14", "C15", "C16", "C17", "C20"}
 ISO = (" Object isolation (Sessions.tla / MC_Sessions, invariants Isolated, Commute): 24/200 TLC-simulated interleaved histories of public calls on two "
        "live TraceAnalysis objects whose files share a folder are replayed; TLC (Trace_Sessions) requires every call of this property to return "
@@ -131,7 +135,7 @@ def main():
                 "evidence_file": f"/verif/evidence/{pid}.json",
                 "replay_cmd_template": f"./check {pid} --replay {{path}}",
                 "engine": "tlc+vf",
-                "level_claimed": {"category": "model_checking", "text": c["text"] + (ISO if pid in ISO_IDS else ""), "design_ref": c["ref"]},
+                "level_claimed": {"category": "model_checking", "text": c["text"] + (INP if pid in INP_IDS else "") + (ISO if pid in ISO_IDS else ""), "design_ref": c["ref"]},
                 "level_note": c["note"],
                 "technique": c["technique"],
             })
